@@ -536,6 +536,43 @@ def addSubapp (fuel : Nat) (t : Table) (pfx q : Str) (s : Table) : Except Err Ta
 is pre-frozen -/
 def addDomain (t : Table) (rule : Rule) (s : Table) : Table := t.register (.dom rule s.freeze)
 
+/-! ## registration on frozen applications (rejected operations change nothing) -/
+
+/-- `add_resource` would hand back the last resource instead of registering a new one -/
+def willReuse (t : Table) (path : Str) : Bool :=
+  match t.rs.getLast? with
+  | some last => rawMatch last path
+  | none => false
+
+/-- `add_route` on a possibly frozen router: `register_resource` raises RuntimeError when the
+router is frozen (after the resource object was built, so template errors come first); re-using the
+last resource registers nothing and is therefore *not* refused -/
+def addRouteOn (frozen : Bool) (rq : List (Str × Str)) (t : Table) (m path : Str) (hid : Nat) :
+    Except Err Table :=
+  match addRoute rq t m path hid with
+  | .error e => .error e
+  | .ok t' => if frozen && !willReuse t path then .error .runtime else .ok t'
+
+/-- `add_static` on a possibly frozen router -/
+def addStaticOn (frozen : Bool) (t : Table) (pfx q : Str) (hid : Nat) : Except Err Table :=
+  match addStatic t pfx q hid with
+  | .error e => .error e
+  | .ok t' => if frozen then .error .runtime else .ok t'
+
+/-- `Application.add_subapp` with the `frozen` guards of `_add_subapp`: the empty-prefix ValueError
+comes first, then "Cannot add sub application to frozen application" — **before** the
+`PrefixedSubAppResource` is built, i.e. before the sub-application's resources are prefixed.
+The result is a value: a rejected mount leaves parent and sub-application as they were. -/
+def addSubappOn (parentFrozen : Bool) (fuel : Nat) (t : Table) (pfx q : Str) (s : Table) :
+    Except Err Table :=
+  if (rstripSlash pfx).isEmpty then .error .value
+  else if parentFrozen then .error .runtime
+  else addSubapp fuel t pfx q s
+
+/-- `Application.add_domain` on a possibly frozen application -/
+def addDomainOn (parentFrozen : Bool) (t : Table) (rule : Rule) (s : Table) : Except Err Table :=
+  if parentFrozen then .error .runtime else .ok (addDomain t rule s)
+
 /-! ## url_for -/
 
 /-- `self._formatter.format_map({k: _quote_path(v)})`; `vals` = (name, quoted value) -/
